@@ -26,6 +26,11 @@ void h_##T##_assign_copy(void) { struct T *s; struct T *o; T##__assign_copy(s, o
 void h_##T##_ctor_copy(void) { struct T *s; struct T *o; T##__ctor_copy(s, o); CANARY; } \
 void h_##T##_assign_move(void) { struct T *s; struct T *o; T##__assign_move(s, o); CANARY; } \
 void h_##T##_ctor_move(void) { struct T *s; struct T *o; T##__ctor_move(s, o); CANARY; } \
-void h_##T##_dtor(void) { struct T *s; T##__dtor(s); CANARY; }
+void h_##T##_dtor(void) { struct T *s; T##__dtor(s); CANARY; } \
+void h_##T##_silentCopy(void) { struct closure_##T##__resize_1 *c; struct Elem *d; size_t n; closure_##T##__resize_1__call(c, d, n); CANARY; } \
+void h_##T##_resize_shrink_inplace(void) { struct T *s; size_t n; __CPROVER_assume(g_case == 1); T##__resize(s, n); CANARY; } \
+void h_##T##_resize_shrink_move(void) { struct T *s; size_t n; __CPROVER_assume(g_case == 4); T##__resize(s, n); CANARY; } \
+void h_##T##_resize_grow(void) { struct T *s; size_t n; __CPROVER_assume(g_case == 2); T##__resize(s, n); CANARY; } \
+void h_##T##_resize_same(void) { struct T *s; size_t n; __CPROVER_assume(g_case == 3); T##__resize(s, n); CANARY; }
 HARNESSES(RBt)
 HARNESSES(RBf)
